@@ -163,6 +163,25 @@ def check_one(ctx, rtext, names, docs, exps, tag):
             else:
                 expected_rel[("case%d" % i, n)] = "noexp"
     want_exit = 7 if any_unmet else 0
+    # a second test-data file for the same rules file, sorting after the first, whose stated expectations all hold: the run as a whole
+    # still fails iff some expectation of either file is unmet
+    import zlib
+    second = None
+    if zlib.crc32((rtext + "2").encode()) % 2 == 0:
+        zexps = []
+        for i in range(len(docs)):
+            e2 = {}
+            for n in names:
+                if n in V[i] and zlib.crc32(("%s%d" % (n, i)).encode()) % 3:
+                    nonskip = [x for x in V[i][n] if x != "SKIP"]
+                    e2[n] = nonskip[0] if nonskip else "SKIP"
+            zexps.append(e2)
+            for n in names:
+                if n in V[i]:
+                    expected_rel[("zcase%d" % i, n)] = "met" if n in e2 else "noexp"
+        second = {layout: json.dumps([{"name": "zcase%d" % i, "input": d, "expectations": {"rules": spell(e2, layout)}} for i, (d, e2) in enumerate(zip(docs, zexps))])
+                  for layout in ("files", "dir")}
+        ctx.res.counts["runs_with_two_test_data_files"] += 1
     case = {"rules": rtext, "tests": ttext, "names": names}
     fl = {"rr.guard": rtext, "tests/rr_tests.json": ttext}
     outs = {}
@@ -175,8 +194,15 @@ def check_one(ctx, rtext, names, docs, exps, tag):
         for layout in ("files", "dir"):
             if layout == "dir" and fmt in ("yaml",) and ctx.quick:
                 continue
-            argv = ["test"] + (["-r", "{S}/rr.guard", "-t", "{S}/tests/rr_tests." + ext] if layout == "files" else ["-d", "{S}"]) + ([] if fmt == "plain" else ["-o", fmt]) + order
-            r = ctx.w.run({"k": "cli", "argv": argv, "files": {"rr.guard": rtext, "tests/rr_tests." + ext: ttexts[layout]}, "subst_files": True})
+            tfiles = {"rr.guard": rtext, "tests/rr_tests." + ext: ttexts[layout]}
+            tpath = "{S}/tests/rr_tests." + ext
+            if second is not None:
+                tfiles["tests/rr_zz_tests." + ext] = second[layout]
+                tpath = "{S}/tests"           # --test-data may name a directory of test files
+            argv = ["test"] + (["-r", "{S}/rr.guard", "-t", tpath] if layout == "files" else ["-d", "{S}"]) + ([] if fmt == "plain" else ["-o", fmt]) + order
+            if second is not None and not order:
+                argv += ["-a"]                 # without -a / -m the order of the two files is the directory's
+            r = ctx.w.run({"k": "cli", "argv": argv, "files": tfiles, "subst_files": True})
             ctx.res.cases += 1
             cfg = "%s-%s" % (fmt, layout)
             c2 = dict(case, cfg=cfg)
